@@ -145,14 +145,15 @@ def parsePairs (n : Nat) (fs : List String) : Option (List (Bytes × Bytes)) :=
       pure ((kb, vb) :: ps)
     | _ => none
 
-/-- `C16E.reset srvName strict nCert certName… plainDoH urlStrictColons` -/
+/-- `C16E.reset srvName strict nDNS dnsSAN… certCN certHasIP plainDoH urlStrictColons` -/
 def parseEConf (f : List String) : Option E2E.Conf := do
   match f with
   | srv :: strict :: n :: rest =>
     let (names, rest') ← parseList (← n.toNat?) rest
     match rest' with
-    | [plain, strictColons] =>
-      pure { srvName := ← hexDecode srv, strict := ← parseBool strict, certNames := names,
+    | [cn, hasIP, plain, strictColons] =>
+      pure { srvName := ← hexDecode srv, strict := ← parseBool strict,
+             cert := { dnsNames := names, cn := ← hexDecode cn, hasIP := ← parseBool hasIP },
              plainDoH := ← parseBool plain, urlStrictColons := ← parseBool strictColons }
     | _ => none
   | _ => none
